@@ -167,6 +167,15 @@ class Walker:
             for it in s.items:
                 a = _self_attr(it.context_expr)
                 owner = lock_owner(self.classes, self.cls, a) if a else None
+                if owner is None and a is None:
+                    # `with self.<field>.<lock>:` - a lock of the object held in a field of known class (FIELD_TYPES),
+                    # e.g. `with self.location_table.loc_t_lock:` inside a Router method
+                    ce = it.context_expr
+                    fld = _self_attr(ce.value) if isinstance(ce, ast.Attribute) else None
+                    for k in FIELD_TYPES.get(fld, []) if fld else []:
+                        if k in self.classes and lock_owner(self.classes, k, ce.attr) is not None:
+                            owner, a = lock_owner(self.classes, k, ce.attr), ce.attr
+                            break
                 if owner is not None:
                     name = f"{owner}_{a}"
                     self.ordinal += 1
